@@ -221,6 +221,63 @@ def shard_int(rname):
     return res
 
 
+BC2_SETS = {"x-open": {"left": {"type": "insup", "ptot": 40.0, "rttot": 3.0, "p": 1.0}, "right": {"type": "outsup"}, "bottom": {"type": "per"}, "top": {"type": "per"}},
+            "x-walls": {"left": {"type": "sym"}, "right": {"type": "sym"}, "bottom": {"type": "per"}, "top": {"type": "per"}},
+            "y-open": {"bottom": {"type": "insup", "ptot": 40.0, "rttot": 3.0, "p": 1.0, "angle": 90.0}, "top": {"type": "outsup"}, "left": {"type": "per"}, "right": {"type": "per"}},
+            "y-walls": {"bottom": {"type": "sym"}, "top": {"type": "sym"}, "left": {"type": "per"}, "right": {"type": "per"}},
+            "all-walls": {t: {"type": "sym"} for t in ("left", "right", "bottom", "top")}}
+
+
+def check_2d_linear(rname, nx, ny, bcname, res=None):
+    """every primitive variable (density, both velocity components, pressure) linear along one direction on a grid that is NOT periodic in that
+    direction: the faces whose stencil stays clear of the boundaries carry the exact profile, in every row/column"""
+    model = space.euler.euler2d()
+    lx, ly = 2.0, 0.75
+    msh = space.mesh2.mesh2d(nx, ny, lx, ly)
+    disc = space.modeldisc.fvm2d(model, msh, space.recon(rname), BC2_SETS[bcname], numflux="centered")
+    xc, yc = [np.asarray(a, float) for a in msh.centers()]
+    nc = nx * ny
+    nxf = ny * (nx + 1)
+    out = []
+    dx, dy = lx / nx, ly / ny
+    for axis in ((0,) if bcname.startswith("x") else (1,) if bcname.startswith("y") else (0, 1)):
+        s_ = xc if axis == 0 else yc
+        prof = {"rho": (1.0, 0.1), "u": (0.3, 0.2), "v": (-0.2, 0.15), "p": (1.0, 0.05)}
+        lin = lambda name, t: prof[name][0] + prof[name][1] * t
+        prim = [lin("rho", s_), np.array([lin("u", s_), lin("v", s_)]), lin("p", s_)]
+        q = model.prim2cons(prim)
+        with np.errstate(all="ignore"):
+            disc.rhs(space.field.fdata(model, msh, [np.asarray(a, float).copy() for a in q]))
+        got = {"rho": (disc.pL[0], disc.pR[0]), "u": (disc.pL[1][0], disc.pR[1][0]), "v": (disc.pL[1][1], disc.pR[1][1]), "p": (disc.pL[2], disc.pR[2])}
+        worst, where = 0.0, None
+        n = nx if axis == 0 else ny
+        for name, (pL, pR) in got.items():
+            pL, pR = np.asarray(pL, float), np.asarray(pR, float)
+            for j in range(ny if axis == 0 else nx):
+                for i in range(1, n):
+                    if axis == 0:
+                        f, t = j * (nx + 1) + i, i * dx
+                    else:
+                        f, t = nxf + i * nx + j, i * dy
+                    want = lin(name, t)
+                    if i >= 2:       # left state comes from cell i-1, which needs an interior face on its other side
+                        e = abs(pL[f] - want)
+                        if e > worst:
+                            worst, where = e, (name, "left", j, i, pL[f], want)
+                    if i <= n - 2:
+                        e = abs(pR[f] - want)
+                        if e > worst:
+                            worst, where = e, (name, "right", j, i, pR[f], want)
+        if res is not None:
+            res.evals += 8 * n * (ny if axis == 0 else nx)
+            res.worst("2d-linear-exactness/eps", worst / 2.0 / EPS)
+        if not worst <= K * EPS * 2.0:
+            out.append(("C11/2d/%s/linear/%s/%s" % (rname.replace(":", "-"), bcname, "along-x" if axis == 0 else "along-y"),
+                        "%s grid %dx%d boundaries %s, profile linear along %s: %s state of %s at face %d of line %d is %r, exact %r" % (
+                            rname, nx, ny, bcname, "xy"[axis], where[1], where[0], where[3], where[2], where[4], where[5])))
+    return out
+
+
 def check_2d(rname, nx, ny, res=None):
     kap = space.recon_kappa(rname)
     model = space.euler.euler2d()
@@ -349,12 +406,23 @@ def shard_2d(arg):
     return res
 
 
+def shard_2d_linear(arg):
+    rname, nx, ny = arg
+    res = core.Res()
+    for bcname in BC2_SETS:
+        res.nontrivial += 1
+        for s_, w in check_2d_linear(rname, nx, ny, bcname, res):
+            res.violation(s_, w, {"kind": "2dlin", "recon": rname, "nx": nx, "ny": ny, "bc": bcname})
+    return res
+
+
 def run(ctx):
     ns = (1, 2, 3, 4, 5, 6) if ctx.thorough else (1, 2, 3, 4, 5)
     ctx.pmap("linear-and-constant-profiles", shard_profiles, [(r, n) for n in ns[::-1] for r in space.X1_ALL])
     ctx.pmap("extrapol1-adjacent-values", shard_e1, [1, 2, 3, 4])
     ctx.pmap("kappa-stencil-1d", shard_stencil, space.X1_UNLIMITED)
     ctx.pmap("integer-typed-cell-data", shard_int, space.X1_ALL)
+    ctx.pmap("linear-profiles-2d-non-periodic", shard_2d_linear, [(r, nx, ny) for r in space.X2_ALL if r != "extrapol2d1" for nx, ny in ((5, 1), (1, 5), (5, 3), (3, 5), (6, 4), (4, 7), (7, 7))])
     ctx.pmap("face-states-2d", shard_2d, [(r, nx, ny) for r in space.X2_ALL for nx in range(1, 5) for ny in range(1, 5)])
 
 
@@ -369,6 +437,8 @@ def replay(case):
         return check_seam(case["recon"], tuple(case["widths"]), case["a"], case["b"])
     if k == "e1":
         return check_extrapol1(tuple(case["widths"]), tuple(case["idx"]), case["bc"])
+    if k == "2dlin":
+        return check_2d_linear(case["recon"], case["nx"], case["ny"], case["bc"])
     if k == "int":
         return check_int_data(case["recon"], tuple(case["widths"]))
     if k == "stencil":
